@@ -179,3 +179,34 @@ func ZZ_C16_noPanicCompleteSpec() {
 	nondet.Observe("active", w.c.EDS[0].Status.ActiveReplicaSet)
 	nondet.Reach("C16.complete.restart-recorded-without-norestartsduration", restarts > 0 && !keepNoRestarts && mode == datadoghqv1alpha1.ExtendedDaemonSetSpecStrategyCanaryValidationModeAuto)
 }
+
+// ZZ_C16_noPanicCanaryStrategyRemovedMidCanary: "reconciliation returns a result or an error but never
+// crashes" in the window between two controllers: the user removes spec.strategy.canary while a canary
+// is in progress, and the replica-set controller syncs a replica set (the canary one, the active one, a
+// leftover) before the ExtendedDaemonSet controller has dropped status.canary.  The spec is valid and
+// defaulted (no canary block at all); the status still names the canary replica set and its node.
+func ZZ_C16_noPanicCanaryStrategyRemovedMidCanary() {
+	c, ds, rsNew, rsOld := zzStore(2)
+	ds.Spec.Strategy.Canary = nil
+	ds.Status.ActiveReplicaSet = rsOld.Name
+	ds.Status.Canary = &datadoghqv1alpha1.ExtendedDaemonSetStatusCanary{ReplicaSet: rsNew.Name, Nodes: []string{zzNodeName(0)}}
+	ds.Status.State = datadoghqv1alpha1.ExtendedDaemonSetStatusStateCanary
+	if nondet.Bool("canaryPodExists") {
+		p := zzPod("canary-pod", zzNodeName(0), rsNew.Name, zzHashNew, 0, corev1.PodRunning, true, nondet.Base().Add(-60*1e9))
+		if nondet.Bool("canaryPodRestarted") {
+			p.Status.ContainerStatuses = []corev1.ContainerStatus{{Name: "agent", RestartCount: 3,
+				LastTerminationState: corev1.ContainerState{Terminated: &corev1.ContainerStateTerminated{Reason: "Error", FinishedAt: metav1.NewTime(nondet.Base().Add(-30 * 1e9))}}}}
+		}
+		c.Pods = append(c.Pods, p)
+	}
+	c.Pods = append(c.Pods, zzPod("active-pod", zzNodeName(1), rsOld.Name, zzHashOld, 0, corev1.PodRunning, true, nondet.Base().Add(-3600*1e9)))
+	which := rsNew.Name
+	if nondet.Bool("syncOfTheActiveReplicaSet") {
+		which = rsOld.Name
+	}
+	_, err := zzReconcile(zzReconciler(c, false), zzNS, which)
+	nondet.Observe("error", err != nil)
+	// until the ExtendedDaemonSet controller has ended the canary, no pod is deleted by either sync
+	nondet.Assert("C16.strategy-removed.no-pod-deleted-meanwhile", c.Count("delete", "Pod") == 0)
+	nondet.Reach("C16.strategy-removed.canary-synced", which == rsNew.Name)
+}
